@@ -7,6 +7,9 @@ CHECKS = {
  "C09": dict(engine="iosim", category="exploration", design="DESIGN.md section 5 (C09)", technique="deterministic simulation: baton-scheduled real threads + fault injection, seeded schedule search",
    text="Seeded exploration of thread interleavings (sync points, FS effects, tensor pieces, bytecode boundaries) x worker/budget/shard configurations x failing tensors/callbacks; exact deadlock criterion; byte-identity against the serial save. Sampling, not proof: a clean batch is evidence.",
    note="threading/concurrent.futures primitives are harness stubs (reported in evidence); one simulated thread runs at a time; instrumented tensors carry the byte accounting."),
+ "C08": dict(engine="iosim", category="fault_enumeration", design="DESIGN.md section 5 (C08)", technique="deterministic simulation: crash-point and single-fault enumeration over interposed file-system effects",
+   text="Per sampled workload every boundary between two file-system effects is checked as a crash point and every effect is failed with every legal errno (plus short writes, raising tensors at every piece, raising callbacks); exhaustive over single faults per workload, workloads themselves sampled (scenarios: absent/foreign/re-save-over-self/symlink/sharded, serial and simulated-parallel).",
+   note="kill -9 crash model on a real tmpfs (no power-loss reordering); cleanup effects never failed; 'new bytes' taken from a fault-free serial save of the same workload."),
 }
 NA = [
  ("C02", "pure function of the input proto: no schedule, clock, fault, crash point or history for a simulator to vary (DESIGN.md section 7)"),
